@@ -105,14 +105,16 @@ def validate_args(func):
                 bound.arguments[pname] = _validate(
                     sig.parameters[pname].annotation, value, pname)
             except xlerrors.ExcelError as err:
-                return err
+                return err.with_traceback(None)
         # 2. Run the function to compute the result.
         try:
             res = func(*bound.args, **bound.kwargs)
         except xlerrors.ExcelError as err:
             # Never crash on Excel errors as we want to store them as the cell
-            # value.
-            return err
+            # value. The error lives on as a value: drop the traceback, whose
+            # frames would keep the arguments (and, through a range that
+            # contains the error, the error itself) alive for ever.
+            return err.with_traceback(None)
         # 3. Convert the result to an Excel type.
         return _validate(sig.return_annotation, res, 'return')
 
